@@ -9,7 +9,7 @@ import BigtreeModel.Relation
 Answers: `ok <tree>` with `<tree> = ( <xname> <attrs sorted by key> <tree>* )`, for the heap
 `( <xname> <left> <right> )` with `_` for an empty slot; `rej:ValueError`; `rej`. -/
 namespace Drv.C13
-open Proto
+open Proto Paths
 
 def showAttrsSorted (a : Attrs) : String :=
   if a.isEmpty then "-" else
